@@ -256,6 +256,9 @@ func (c *Ctx) Compare(ops []string, goOut []string) int {
 	res, err := c.Model.Eval(ops)
 	if err != nil {
 		c.Res.Disagree(Disagreement{Op: "(driver)", Go: "", Model: err.Error(), Note: "model driver failed"})
+		if d := os.Getenv("VERIF_DUMP_OPS"); d != "" {
+			os.WriteFile(d, []byte(strings.Join(ops, "\n")+"\n"), 0o644)
+		}
 		return 1
 	}
 	n := 0
